@@ -48,9 +48,39 @@ def mixed_tick_scripts(rng, tier):
     return out
 
 
+def mapped_trigger_scripts(rng, tier):
+    """implementation only (the model has no trigger with a mapped payload): a server trigger registered with
+    add_mapped_server_trigger whose payload entity is known to the client while its TARGET is not (hidden, never replicated, or
+    despawned in the trigger's tick): the trigger must be withheld, never delivered with an unresolved target"""
+    out = []
+    for i in range(30 if tier == "quick" else 1000):
+        pol = rng.choice(["black", "black", "all"])
+        lines = ["cfg policy=%s auth=none track=0 nclients=1 timeout=10000" % pol, "start", "sframe 0 10", "connect 0 1200"]
+        lines += ["sop spawn 1 1 0=1", "sop spawn 2 1 0=2", "sop spawn 3 0 0=3"]          # 3 is never replicated
+        lines += ["sframe 1 16", "deliver 0 s2c 0 all", "cframe 0", "deliver 0 c2s 0 all"]
+        seq = 0
+        for _ in range(rng.randrange(1, 4)):
+            k = rng.random()
+            seq += 1
+            if k < 0.35 and pol == "black":
+                lines += ["sop vis 0 2 0", "sop ev STM b %d r2" % seq]                       # target hidden in the trigger's tick
+            elif k < 0.6:
+                lines.append("sop ev STM b %d r3" % seq)                                     # target never replicated
+            elif k < 0.8:
+                lines += ["sop spawn %d 1 0=9" % (10 + seq), "sop ev STM b %d r%d" % (seq, 10 + seq), "sop despawn %d" % (10 + seq)]
+            else:
+                lines.append("sop ev STM b %d r1" % seq)                                     # resolvable: must arrive with its target
+            lines.append("sframe 1 16")
+            lines += ["deliver 0 s2c 0 all", "deliver 0 s2c 7 all", "cframe 0", "deliver 0 c2s 0 all"]
+        lines += ["sframe 1 16", "deliver 0 s2c 0 all", "deliver 0 s2c 7 all", "cframe 0"]
+        out.append(("mapped-trigger-%d" % i, lines, None))
+    return out
+
+
 def run(tier, seed, replay):
     kws = [dict(events=True, weights=dict(sev=4.0, edeliver=5.0, deliver=2.0)), dict(events=True, nclients=3, auth="custom"), dict(events=True, policy="black"), dict(events=True, weights=dict(sev=3.0, sop=6.0))]
-    return sim_check("C04", tier, seed, kws, n_quick=240, n_thorough=24000, oracle_props={"C04"}, known_ids=("D19",), custom_scripts=mixed_tick_scripts,
+    return sim_check("C04", tier, seed, kws, n_quick=240, n_thorough=24000, oracle_props={"C04"}, known_ids=("D19",), custom_scripts=mixed_tick_scripts, impl_only_scripts=mapped_trigger_scripts,
+                     impl_only_label="a server trigger with a mapped payload whose target the client cannot resolve",
                      rule_extra=", server events of every kind (ordered, independent, mapped, unreliable, triggers with targets) emitted in arbitrary frames with event channels delayed independently of the update channel",
                      extra_assumptions=["'withheld' is read as 'not delivered': a ready event whose entity cannot be resolved on the client is dropped, not retried (C04_references_resolve_or_dropped)"],
                      model_name="RV.Repl.Sys + RV.Events.Remote")
